@@ -480,7 +480,76 @@ def collect_call_args():
     return out
 
 
+def ignore_cache():
+    """the memo of IgnoreDirectiveParser.is_ignored (Model/CollectCache.v): created per parser instance in __init__, looked up and
+    filled under the same key, the key is the string of the path object that is also the source of check_path"""
+    cls = find_class(parse(IGN), "IgnoreDirectiveParser")
+    for st in cls.body:
+        names = [ast.unparse(t) for t in st.targets] if isinstance(st, ast.Assign) else [ast.unparse(st.target)] if isinstance(st, ast.AnnAssign) else []
+        if "_ignore_cache" in names:
+            raise Unsupported("IgnoreDirectiveParser._ignore_cache is a class attribute (shared by all parsers)")
+    init = [ast.unparse(x) for x in _body(find_func(cls, "__init__"))]
+    if init.count("self._ignore_cache: dict[str, bool] = {}") != 1:
+        raise Unsupported("__init__: the memo is not created empty per instance")
+    if [x for x in init if "repo_patterns" in x] != ["self.repo_patterns = _load_repo_ignores(self.project_root)"]:
+        raise Unsupported("__init__: repo_patterns")
+    f = find_func(cls, "is_ignored")
+    _params(f, ["self", "file_path"])
+    b = [ast.unparse(x) for x in _body(f)]
+    if len(b) != 6 or b[0] != "path_str = str(file_path)" or b[1] != "with suppress(KeyError):\n    return self._ignore_cache[path_str]" \
+            or not b[2].startswith("try:\n    check_path = str(file_path.relative_to(self.project_root))\nexcept ValueError:\n    check_path = ") \
+            or not b[3].startswith("result = ") or b[4] != "self._ignore_cache[path_str] = result" or b[5] != "return result":
+        raise Unsupported("is_ignored: memo handling changed")
+    others = [n for n in ast.walk(parse(IGN)) if isinstance(n, ast.Attribute) and n.attr == "_ignore_cache"]
+    if len(others) != 3:
+        raise Unsupported("_ignore_cache is used outside __init__ / is_ignored")
+    return defn("ignore_cache_per_instance", "bool", "true") + defn("ignore_cache_keyed_by_path_str", "bool", "true")
+
+
+FNMATCH_TRANSLATE_SHA256 = "495fad79cb938c4aba4f4e8dd9f971ce69a602eb8c29097a31f4036dbf1a543a"     # CPython 3.12 fnmatch.translate (ast.dump)
+
+
+def fnmatch_translate():
+    """The interpreter's own fnmatch (library oracle; Model/Glob.v transcribes how fnmatch.translate cuts a bracket expression into
+    chunks and removes empty ranges).  Fail closed when fnmatch.fnmatch no longer runs through the transcribed translate() or when
+    that function is not the one that was transcribed; the offsets of the hyphen search are generated from its text."""
+    import fnmatch
+    import hashlib
+    import inspect
+    import textwrap
+
+    def body_of(fn):
+        t = ast.parse(textwrap.dedent(inspect.getsource(getattr(fn, "__wrapped__", fn)))).body[0]
+        return t, [ast.unparse(x) for x in _body(t)]
+    want = {"fnmatch": ["name = os.path.normcase(name)", "pat = os.path.normcase(pat)", "return fnmatchcase(name, pat)"],
+            "fnmatchcase": ["match = _compile_pattern(pat)", "return match(name) is not None"]}
+    for name, lines in want.items():
+        if body_of(getattr(fnmatch, name))[1] != lines:
+            raise Unsupported(f"fnmatch.{name}: body changed")
+    cp = body_of(fnmatch._compile_pattern)[1]
+    if len(cp) != 2 or not cp[0].endswith("else:\n    res = translate(pat)") or cp[1] != "return re.compile(res).match":
+        raise Unsupported("fnmatch._compile_pattern: body changed")
+    tr, _ = body_of(fnmatch.translate)
+    if hashlib.sha256(ast.dump(tr).encode()).hexdigest() != FNMATCH_TRANSLATE_SHA256:
+        raise Unsupported("fnmatch.translate is not the function transcribed in Model/Glob.v (re-validate the model against this Python version)")
+    branch = [n for n in ast.walk(tr) if isinstance(n, ast.If) and ast.unparse(n.test) == "c == '['"]
+    if len(branch) != 1:
+        raise Unsupported("fnmatch.translate: bracket branch")
+    assigns = [n for n in ast.walk(branch[0]) if isinstance(n, ast.Assign) and ast.unparse(n.targets[0]) in ("i", "k")]
+    texts = [ast.unparse(n) for n in assigns]
+    if texts != ["i = j + 1", "k = i + 2 if pat[i] == '!' else i + 1", "k = pat.find('-', k, j)", "i = k + 1", "k = k + 3"]:
+        raise Unsupported("fnmatch.translate: hyphen search changed")
+    first = assigns[1].value
+    off_neg, off_pos = const_value(first.body.right), const_value(first.orelse.right)
+    step_i, step_k = const_value(assigns[3].value.right), const_value(assigns[4].value.right)
+    if not all(isinstance(x, int) for x in (off_neg, off_pos, step_i, step_k)) or step_k < step_i:
+        raise Unsupported("fnmatch.translate: offsets")
+    return (defn("fnm_first_off_negated", "nat", str(off_neg)) + defn("fnm_first_off", "nat", str(off_pos))
+            + defn("fnm_next_off", "nat", str(step_k - step_i)))
+
+
 ITEMS = [
+    ("fnmatch_translate", fnmatch_translate),
     ("excluded_dirs", excluded_dirs),
     ("excluded_exts", excluded_exts),
     ("should_include_dir", should_include_dir),
@@ -488,6 +557,7 @@ ITEMS = [
     ("walk_items", walk_items),
     ("lint_gates", lint_gates),
     ("is_ignored_core", is_ignored),
+    ("ignore_cache", ignore_cache),
     ("matches_pattern", matches_pattern),
     ("extract_patterns", extract_patterns),
     ("repo_ignore_sources", repo_ignore_sources),
